@@ -18,8 +18,13 @@ PID = "C01"
 def jobs_for(inst, rng, n, crash_frac=0.25):
     jobs = []
     for i in range(n):
+        rp = {}
+        if inst.lazy and i % 3 == 2:
+            # narrowed reuse scopes (nodes are composed during the run, so the run parameter reaches them)
+            # (scopes with both own and shared: the environment model's scan answers from the own and the shared pool)
+            rp["pool_scope"] = rng.choice(["own shared", "own swarm shared", "own cluster shared"])
         jobs.append({"sched": {"seed": rng.randrange(1 << 30), "statuses": ["PASS", "FAIL", "ERROR", "WARN"], "weights": [8, 1, 1, 1]},
-                     "store": D.random_store(inst, rng, rng.choice([0.0, 0.3, 0.6, 0.9]))})
+                     "store": D.random_store(inst, rng, rng.choice([0.0, 0.0, 0.3, 0.6, 0.9])), "run_params": rp})
     return jobs
 
 
@@ -73,7 +78,8 @@ def run(tier, seed):
             if "harness_error" in r:
                 continue
             jobs.append({"sched": {"seed": rng.randrange(1 << 30), "statuses": ["PASS", "FAIL"], "weights": [9, 1]},
-                         "store": {k: list(x) for k, x in r["final_store"].items() if x}, "after_crash_at_event": r["job"]["cap"]})
+                         "store": {k: list(x) for k, x in r["final_store"].items() if x}, "after_crash_at_event": r["job"]["cap"],
+                         "run_params": dict(r["job"].get("run_params", {}))})
         good, traces, fails = camp.run_instance(inst, jobs, props={"C01"})
     for inst, res, f, tr in camp.failures:
         sig = signature(inst, res, f)
